@@ -27,6 +27,7 @@ global lastdel Bool                        -- result of the last Set.Delete of t
 global lastcnt Int                         -- result of the last counter decrement of the running Done (ghost)
 global anydel Bool                         -- some Delete of the running Done removed an element (ghost)
 
+global vval IntArr                         -- reactive variable -> the value last stored by Set (ghost model of Variable[int])
 global lastcond Bool                       -- what the counter's condition said about the new input value (ghost)
 
 type evictionState
@@ -34,6 +35,10 @@ type evictionState
 
 type counter
   callback condition(v) (r)
+
+-- SortedSet: sortedElements holds the element records heaviest first; every record knows its own position
+type sortedSet
+  invariant forall i Int :: 0 <= i && i < len(self.sortedElements) ==> self.sortedElements[i] != nil && self.sortedElements[i].index == i && self.sortedElements[i] < $alloc     -- (allocated records)
 
 -- the reactive Set interface as used by the WaitGroup: membership and cardinality
 func Set.Add(s, e) (r)
@@ -173,4 +178,113 @@ func counter.Monitor$1$1
   ghost before call counter#condition: assert arg0 == *newInputValue
   ensures *conditionWasTrue == lastcond
   ensures r0 == currentValue + ((lastcond && !old(*conditionWasTrue)) ? 1 : 0) - ((!lastcond && old(*conditionWasTrue)) ? 1 : 0)
+
+-- ---------------------------------------------------------------------------------------------------------------
+-- SortedSet, sequential core (under s.mutex): contracts instantiated for int elements and int weights (no Less method:
+-- ties keep their order)
+
+-- Variable[int] as used for the heaviest / lightest references
+func Variable.Set(v, x) (prev)
+  modifies ghost(vval)
+  ensures vval == upd(old(vval), v, x)
+
+-- the optional tie-breaker of an element type: a pure comparison (assumed)
+func lessable.Less(l, other) (r)
+  ensures true
+
+-- exchanges two neighbours iff the left one is lighter
+func sortedSet.swap
+  instantiate ElementType: int
+  instantiate WeightType: int
+  requires s != nil && inv(s) && left != nil && right != nil && 0 <= left.index && left.index + 1 == right.index && right.index < len(s.sortedElements)
+  requires s.sortedElements[left.index] == left && s.sortedElements[right.index] == right
+  modifies left.index, right.index, elems(s.sortedElements)
+  ensures left.weight < right.weight ==> swapped
+  ensures swapped ==> left.weight <= right.weight
+  ensures swapped ==> left.index == old(right.index) && right.index == old(left.index)
+  ensures !swapped ==> left.index == old(left.index) && right.index == old(right.index)
+  ensures s.sortedElements[left.index] == left && s.sortedElements[right.index] == right && inv(s)
+  ensures forall i Int :: 0 <= i && i < len(s.sortedElements) && i != old(left.index) && i != old(right.index) ==> s.sortedElements[i] == old(s.sortedElements[i])
+
+-- the deferred end-update of updatePosition: afterwards the heaviest / lightest references name the records at the ends
+func sortedSet.updatePosition$1
+  instantiate ElementType: int
+  instantiate WeightType: int
+  requires s != nil && *s != nil && element != nil && *element != nil && moved != nil && inv(*s)
+  requires (*s).heaviestElement != nil && (*s).lightestElement != nil && (*s).heaviestElement != (*s).lightestElement
+  requires 0 <= fromIndex && fromIndex < len((*s).sortedElements) && 0 <= (*element).index && (*element).index < len((*s).sortedElements) && (*s).sortedElements[(*element).index] == *element
+  requires *moved <==> (*element).index != fromIndex
+  requires fromIndex != 0 && (*element).index != 0 ==> sel(vval, (*s).heaviestElement) == (*s).sortedElements[0].element
+  requires fromIndex != len((*s).sortedElements) - 1 && (*element).index != len((*s).sortedElements) - 1 ==> sel(vval, (*s).lightestElement) == (*s).sortedElements[len((*s).sortedElements) - 1].element
+  modifies ghost(vval)
+  ensures sel(vval, (*s).heaviestElement) == (*s).sortedElements[0].element
+  ensures sel(vval, (*s).lightestElement) == (*s).sortedElements[len((*s).sortedElements) - 1].element
+
+-- updatePosition: all other records are ordered (heaviest first) and the end references are right for them; the record
+-- whose weight changed bubbles to its place: afterwards everything is ordered, the records are the same (a shift of the
+-- ones it passed), and the end references name the ends
+func sortedSet.updatePosition
+  instantiate ElementType: int
+  instantiate WeightType: int
+  requires s != nil && inv(s) && element != nil && 0 <= element.index && element.index < len(s.sortedElements) && s.sortedElements[element.index] == element
+  requires s.heaviestElement != nil && s.lightestElement != nil && s.heaviestElement != s.lightestElement
+  requires forall i Int, j Int :: 0 <= i && i < j && j < len(s.sortedElements) && i != element.index && j != element.index ==> s.sortedElements[i].weight >= s.sortedElements[j].weight
+  requires element.index != 0 ==> sel(vval, s.heaviestElement) == s.sortedElements[0].element
+  requires element.index != len(s.sortedElements) - 1 ==> sel(vval, s.lightestElement) == s.sortedElements[len(s.sortedElements) - 1].element
+  modifies sortedSetElement.index, elems(s.sortedElements), ghost(vval)
+  -- left loop: the record moves towards the front; the ones it passed moved one place back
+  loop 1 invariant inv(s) && 0 <= element.index && element.index <= old(element.index) && s.sortedElements[element.index] == element && s.sortedElements == old(s.sortedElements)
+  loop 1 invariant moved <==> element.index != old(element.index)
+  loop 1 invariant forall k Int :: 0 <= k && k < element.index ==> s.sortedElements[k] == old(s.sortedElements[k])
+  loop 1 invariant forall k Int :: old(element.index) < k && k < len(s.sortedElements) ==> s.sortedElements[k] == old(s.sortedElements[k])
+  loop 1 invariant forall k Int :: element.index < k && k <= old(element.index) ==> s.sortedElements[k] == old(s.sortedElements[k - 1])
+  loop 1 invariant forall k Int :: element.index < k && k <= old(element.index) ==> s.sortedElements[k].weight <= element.weight
+  loop 1 invariant forall k Int :: 0 <= k && k < len(s.sortedElements) && old(s.sortedElements[k]) != element ==> old(s.sortedElements[k]).weight == old(old(s.sortedElements[k]).weight)
+  loop 1 invariant forall i Int, j Int :: 0 <= i && i < j && j < len(s.sortedElements) && i != element.index && j != element.index ==> s.sortedElements[i].weight >= s.sortedElements[j].weight
+  -- right loop (only if it did not move left): the record moves towards the back
+  loop 2 invariant inv(s) && old(element.index) <= element.index && element.index < len(s.sortedElements) && s.sortedElements[element.index] == element && s.sortedElements == old(s.sortedElements)
+  loop 2 invariant moved <==> element.index != old(element.index)
+  loop 2 invariant forall k Int :: 0 <= k && k < old(element.index) ==> s.sortedElements[k] == old(s.sortedElements[k])
+  loop 2 invariant forall k Int :: element.index < k && k < len(s.sortedElements) ==> s.sortedElements[k] == old(s.sortedElements[k])
+  loop 2 invariant forall k Int :: old(element.index) <= k && k < element.index ==> s.sortedElements[k] == old(s.sortedElements[k + 1])
+  loop 2 invariant forall k Int :: 0 <= k && k < element.index ==> s.sortedElements[k].weight >= element.weight
+  loop 2 invariant forall i Int, j Int :: 0 <= i && i < j && j < len(s.sortedElements) && i != element.index && j != element.index ==> s.sortedElements[i].weight >= s.sortedElements[j].weight
+  ensures inv(s) && 0 <= element.index && element.index < len(s.sortedElements) && s.sortedElements[element.index] == element && s.sortedElements == old(s.sortedElements)
+  ensures forall i Int, j Int :: 0 <= i && i < j && j < len(s.sortedElements) ==> s.sortedElements[i].weight >= s.sortedElements[j].weight
+  -- the same records: the ones between the old and the new position of the record moved by one place, nothing else moved
+  ensures forall k Int :: 0 <= k && k < len(s.sortedElements) && ((k < element.index && k < old(element.index)) || (k > element.index && k > old(element.index))) ==> s.sortedElements[k] == old(s.sortedElements[k])
+  ensures forall k Int :: element.index < k && k <= old(element.index) ==> s.sortedElements[k] == old(s.sortedElements[k - 1])
+  ensures forall k Int :: old(element.index) <= k && k < element.index ==> s.sortedElements[k] == old(s.sortedElements[k + 1])
+  ensures sel(vval, s.heaviestElement) == s.sortedElements[0].element
+  ensures sel(vval, s.lightestElement) == s.sortedElements[len(s.sortedElements) - 1].element
+
+-- a new record goes to the end (weight still zero); the records before it are untouched
+func newSortedSetElement
+  instantiate ElementType: int
+  instantiate WeightType: int
+  requires sortedSet != nil && inv(sortedSet)
+  modifies sortedSet.sortedElements, allelems(*sortedSetElement)
+  ensures r0 != nil && fresh(r0) && r0.element == element && r0.weight == 0 && r0.unsubscribeFromWeightUpdates == nil && r0.index == old(len(sortedSet.sortedElements))
+  ensures len(sortedSet.sortedElements) == old(len(sortedSet.sortedElements)) + 1 && sortedSet.sortedElements[r0.index] == r0 && inv(sortedSet)
+  ensures forall k Int :: 0 <= k && k < old(len(sortedSet.sortedElements)) ==> sortedSet.sortedElements[k] == old(sortedSet.sortedElements[k])
+
+-- the weight subscription of a record: the new weight is stored and the record is moved to its place (also for the
+-- initial report, whatever the weight is): afterwards everything is ordered and the end references name the ends
+func sortedSet.addSorted$2
+  instantiate ElementType: int
+  instantiate WeightType: int
+  opt sequential
+  requires s != nil && *s != nil && listElement != nil && *listElement != nil && inv(*s)
+  requires ((*listElement).unsubscribeFromWeightUpdates == nil ==> held((*s).mutex)) && ((*listElement).unsubscribeFromWeightUpdates != nil ==> unlocked((*s).mutex))
+  requires 0 <= (*listElement).index && (*listElement).index < len((*s).sortedElements) && (*s).sortedElements[(*listElement).index] == *listElement
+  requires (*s).heaviestElement != nil && (*s).lightestElement != nil && (*s).heaviestElement != (*s).lightestElement
+  requires forall i Int, j Int :: 0 <= i && i < j && j < len((*s).sortedElements) && i != (*listElement).index && j != (*listElement).index ==> (*s).sortedElements[i].weight >= (*s).sortedElements[j].weight
+  requires (*listElement).index != 0 ==> sel(vval, (*s).heaviestElement) == (*s).sortedElements[0].element
+  requires (*listElement).index != len((*s).sortedElements) - 1 ==> sel(vval, (*s).lightestElement) == (*s).sortedElements[len((*s).sortedElements) - 1].element
+  modifies sortedSetElement.index, (*listElement).weight, elems((*s).sortedElements), ghost(vval)
+  ensures inv(*s) && (*listElement).weight == newWeight && (*s).sortedElements[(*listElement).index] == *listElement
+  ensures forall i Int, j Int :: 0 <= i && i < j && j < len((*s).sortedElements) ==> (*s).sortedElements[i].weight >= (*s).sortedElements[j].weight
+  ensures sel(vval, (*s).heaviestElement) == (*s).sortedElements[0].element
+  ensures sel(vval, (*s).lightestElement) == (*s).sortedElements[len((*s).sortedElements) - 1].element
+  ensures ((*listElement).unsubscribeFromWeightUpdates == nil ==> held((*s).mutex)) && ((*listElement).unsubscribeFromWeightUpdates != nil ==> unlocked((*s).mutex))
 @*/
